@@ -70,6 +70,8 @@ impl<'a> Tape<'a> {
 pub enum Verdict {
     Pass,
     Fail(String),
+    /// the harness itself is inconsistent (oracle self-check failed): reported as inconclusive, never as a violation
+    Broken(String),
 }
 
 impl Verdict {
@@ -78,6 +80,9 @@ impl Verdict {
     }
     pub fn is_fail(&self) -> bool {
         matches!(self, Verdict::Fail(_))
+    }
+    pub fn is_pass(&self) -> bool {
+        matches!(self, Verdict::Pass)
     }
 }
 
@@ -198,6 +203,7 @@ pub fn hash_of<K: Hash>(k: &K) -> u64 {
 
 #[derive(Debug, Clone)]
 pub struct Failure {
+    pub broken: bool,
     pub sub: String,
     pub case: Value,
     pub tape: Option<Vec<u16>>,
@@ -349,7 +355,11 @@ impl Ctx {
                     self.stats.merge(st);
                 }
                 Ok(Verdict::Fail(msg)) => {
-                    self.failure = Some(Failure { sub, case: v["case"].clone(), tape: None, message: format!("{msg} [corpus file {}]", f.display()) });
+                    self.failure = Some(Failure { broken: false, sub, case: v["case"].clone(), tape: None, message: format!("{msg} [corpus file {}]", f.display()) });
+                    return;
+                }
+                Ok(Verdict::Broken(msg)) => {
+                    self.inconclusive = Some(format!("oracle self-check failed on corpus file {}: {msg}", f.display()));
                     return;
                 }
             }
@@ -383,6 +393,10 @@ impl Ctx {
                     self.known_printed.push(line);
                 }
                 Ok(Verdict::Pass) => {}
+                Ok(Verdict::Broken(m)) => {
+                    self.inconclusive = Some(format!("witness file {}: oracle self-check failed: {m}", p.display()));
+                    return;
+                }
                 Err(e) => {
                     self.inconclusive = Some(format!("witness file {}: {e}", p.display()));
                     return;
@@ -498,6 +512,12 @@ impl Ctx {
         if let Some(why) = &self.inconclusive {
             eprintln!("INCONCLUSIVE property={} : {}", self.property, why);
             return 2;
+        }
+        if let Some(f) = &self.failure {
+            if f.broken {
+                eprintln!("INCONCLUSIVE property={} : oracle self-check failed in sub-check {}: {}\ncase: {}", self.property, f.sub, f.message, f.case);
+                return 2;
+            }
         }
         let mut replay_path = None;
         if let Some(f) = &self.failure {
@@ -626,6 +646,10 @@ where
                 frozen.set(true);
                 Err(TestCaseError::fail(m))
             }
+            Ok(Verdict::Broken(m)) => {
+                frozen.set(true);
+                Err(TestCaseError::fail(format!("BROKEN-ORACLE: {m}")))
+            }
             Err(p) => {
                 frozen.set(true);
                 Err(TestCaseError::fail(format!("harness oracle panicked: {}", panic_message(&p))))
@@ -641,16 +665,21 @@ where
             // re-run on the minimal case to get its own message
             let mut scratch = Stats::new();
             let mut obs = Obs { st: &mut scratch, frozen: true };
+            let mut broken = false;
             let msg = match std::panic::catch_unwind(std::panic::AssertUnwindSafe(|| oracle(&case, &mut obs))) {
                 Ok(Verdict::Fail(m)) => m,
+                Ok(Verdict::Broken(m)) => {
+                    broken = true;
+                    m
+                }
                 Ok(Verdict::Pass) => format!("{reason} (not reproduced on re-run of the minimal tape!)"),
                 Err(p) => format!("harness oracle panicked: {}", panic_message(&p)),
             };
-            let f = Failure { sub: sub.to_string(), case: serde_json::to_value(&case).unwrap_or(Value::Null), tape: Some(tape), message: msg };
+            let f = Failure { broken, sub: sub.to_string(), case: serde_json::to_value(&case).unwrap_or(Value::Null), tape: Some(tape), message: msg };
             (st, Some(f))
         }
         Err(TestError::Abort(reason)) => {
-            let f = Failure { sub: sub.to_string(), case: Value::Null, tape: None, message: format!("proptest aborted: {reason}") };
+            let f = Failure { broken: false, sub: sub.to_string(), case: Value::Null, tape: None, message: format!("proptest aborted: {reason}") };
             (st, Some(f))
         }
     }
@@ -677,7 +706,7 @@ pub fn replay_case<C: DeserializeOwned, O: Fn(&C, &mut Obs) -> Verdict>(case: &V
 
 /// Shrink helper used by exhaustive sub-checks is unnecessary (they enumerate smallest first).
 pub fn fail_case<C: Serialize>(sub: &str, case: &C, message: String) -> Failure {
-    Failure { sub: sub.to_string(), case: serde_json::to_value(case).unwrap_or(Value::Null), tape: None, message }
+    Failure { broken: false, sub: sub.to_string(), case: serde_json::to_value(case).unwrap_or(Value::Null), tape: None, message }
 }
 
 // ---------------------------------------------------------------------------------------------
